@@ -560,6 +560,29 @@ def neighbourhood(case, step, rng):
 # model side
 # ---------------------------------------------------------------------------------------
 
+def replay_known(entry):
+    """F116: the witness of `held_gone_leaves_violated` on the real code"""
+    if entry.get("signature") != "C12/held-deleted/releaseLayer/stayed-when-gone/coalesced":
+        return False
+    from defcon import Font
+    font = Font()
+    layer = font.layers.defaultLayer
+    keep = [font, layer]
+    for n in ("a", "b", "c"):
+        keep.append(layer.newGlyph(n))
+    layer.holdNotifications()
+    del layer["b"]
+    keep.append(layer.newGlyph("b"))
+    del layer["b"]
+    layer.releaseHeldNotifications()
+    stale = "b" in font.glyphOrder and not any("b" in l for l in font.layers)
+    # ... and without the repetition the name leaves (the partial theorem's side)
+    layer.holdNotifications()
+    del layer["c"]
+    layer.releaseHeldNotifications()
+    return stale and "c" not in font.glyphOrder and bool(keep)
+
+
 def _lib(v):
     return opt(None if v is None else list(v))
 
